@@ -64,6 +64,23 @@ class FaultStream:
         self._tick("read")
         return self._f.read(n)
 
+    def peek(self, n=0):              # (what Path.open("rb") returns is a BufferedReader: it can be peeked and read into)
+        self._tick("peek")
+        pos = self._f.tell()
+        b = self._f.read(n if n and n > 0 else 4096)
+        self._f.seek(pos)
+        return b
+
+    def readinto(self, buf):
+        self._tick("readinto")
+        return self._f.readinto(buf)
+
+    def readable(self):
+        return True
+
+    def seekable(self):
+        return True
+
     def seek(self, pos, whence=0):
         self._tick("seek")
         return self._f.seek(pos, whence)
@@ -245,10 +262,11 @@ def run(ctx):
             t = one_load(api, "open-%s|%s|%d" % (of, flag0, len(traces)), b"", flag0, "path", open_fails=of)
             traces.append(t)
             ctx.count_case(("open-fails", of, flag0, k), nontrivial=True)
+    sanity = []          # judged after the traces: a library that fails every load is reported as such, not as a machinery failure
     if not any(t["events"][0]["kind"] == "path" and any(e["op"] == "io" for e in t["events"]) for t in traces):
-        raise MachineryError("no path-opened load reached the wrapped Path.open (the library opens files differently now?)")
+        sanity.append("no path-opened load reached the wrapped Path.open (the library opens files differently now?)")
     if not any(e["op"] == "nested_enter" for t in traces for e in t["events"]):
-        raise MachineryError("no nested load was observed")
+        sanity.append("no nested load was observed")
     cans = []
     def canary(name, pred, mut):
         src = next(t for t in traces if pred(t))
@@ -267,4 +285,6 @@ def run(ctx):
     ctx.cov["raised"] = sum(1 for t in traces if t["events"][-1]["op"] == "raise")
     ctx.cov["with_nested_load"] = sum(1 for t in traces if any(e["op"] == "nested_enter" for e in t["events"]))
     trace.validate(ctx, "Trace_RVLoad", traces, "c18_load", canaries=cans, where=lambda tr, m: tr["id"][:160], timeout=3000)
+    if sanity and not ctx.violations:
+        raise MachineryError("; ".join(sanity))
     ctx.exhaustive = False
